@@ -56,7 +56,9 @@ class C08(Prop):
     design_ref = "DESIGN.md §6 C08"
     # translator tie (DESIGN II.7): src/scheduler.rs itself — TaskHandle's two Subscription impls and the poll functions of
     # Remote / OnceTask / FutureTask / RepeatTask, regenerated from the compiler-expanded source on every run
-    tie_modules = {"RxModel.GenTie.Scheduler": []}
+    tie_modules = {"RxModel.GenTie.Scheduler": [],
+                   # interval / interval_at / timer / timer_at: what `actual_subscribe` schedules, the tick and task functions
+                   "RxModel.GenTie.TimeSources": []}
     rule = ("interval / interval_at / timer / timer_at sources (optionally followed by synchronous operators and "
             "take) on the virtual clock: (a) prompt schedules: clock advanced in single steps, executor run after "
             "each; (b) jumps over several periods, fire/poll in arbitrary order, late executors. Full line "
